@@ -688,10 +688,11 @@ class RedirectScheduleStream(ScheduleStream):
 
 CHECK = Check(
     prop="C12",
-    gen=["Routing", "RoutingSamples", "RoutingLock", "RoutingGlue", "PyFns_RoutingUrl"],
-    modules=["WzVerif.Props.C12", "WzVerif.Props.C03L", "WzVerif.Props.C12T"],
+    gen=["Routing", "RoutingSamples", "RoutingLock", "RoutingGlue", "PyFns_RoutingUrl", "PyFns_RoutingRule"],
+    modules=["WzVerif.Props.C12", "WzVerif.Props.C03L", "WzVerif.Props.C12T", "WzVerif.Props.C12T2"],
     streams=[RedirectStream(), RedirectScheduleStream()],
     assumptions=[
+        "C12T2 (Rule.suitable_for / build_compare_key / provides_defaults_for as regenerated from the source): URL variable values are a type parameter with == as a parameter (Value.pyEq in the theorems); self.arguments is handed over as a list; Rule.__eq__, the endpoint comparison and the comparison of the argument sets are parameters",
         "C12T (MapAdapter.get_host / encode_query_args / make_redirect_url / make_alias_redirect_url as regenerated from the source): urlunsplit (urllib) and _urlencode are parameters instantiated with the hand model's functions; query_args is translated once per class (str / list of pairs); the outcome of self.build(...) is a parameter",
         "model scope: the redirects MapAdapter.match raises on its own (slash, merged slashes, defaults, alias); redirect_to rules are application supplied and not modelled; host_matching maps are outside the theorems (BoundOK) and the stream",
         "bound adapter is WSGI-shaped: script_name empty or starting with '/', non-empty server name, scheme http/https/ws/wss; a script_name without leading slash makes build() glue it onto the host (observed, outside the claim: not a valid SCRIPT_NAME)",
